@@ -147,8 +147,8 @@ class SrtContext:
 
     LOGGER.debug(
       "Append ISD from %ss to %ss to SRT content.",
-      float(begin),
-      float(end) if end is not None else "unbounded"
+      begin,
+      end if end is not None else "unbounded"
     )
 
     is_isd_empty = True
